@@ -257,13 +257,18 @@ pub fn move_of(r: &RMove) -> Option<Move> {
     if r.cell as usize >= 13 || r.src >= 64 || r.dst >= 64 {
         return None;
     }
-    Move::new(
+    // `Move::new` is library code: should it panic for some tuple (a matter of move
+    // construction, not of the properties judged here), the tuple simply cannot be built
+    let (kind, cell, src, dst) = (
         kind_of_u8(r.kind),
         Cell::from_index(r.cell as usize),
         Coord::from_index(r.src as usize),
         Coord::from_index(r.dst as usize),
-    )
-    .ok()
+    );
+    match std::panic::catch_unwind(move || Move::new(kind, cell, src, dst)) {
+        Ok(r) => r.ok(),
+        Err(_) => None,
+    }
 }
 
 pub fn promote_of(p: Option<u8>) -> Option<PromotePiece> {
